@@ -484,6 +484,10 @@ Fixpoint lastc {A} (l : list A) : option A :=
 (* the defect L001 names: the line ends in a space or a tab *)
 Definition ends_blank (l : list ch) : Prop := exists c, lastc l = Some c /\ is_blank c = true.
 
+(* byte level: a text made of ASCII bytes, and a rewriter seen as a function on bytes *)
+Definition ascii_bytes (s : list N) : bool := forallb (fun b => b <? 128) s.
+Definition onbytes (f : list ch -> list ch) (s : list N) : list N := encode (f (decode s)).
+
 (* what L002 and L003 name *)
 (* indentation kind of a line: 0 none, 1 tabs only, 2 spaces only, 3 mixed *)
 Definition ikind (l : list ch) : N :=
